@@ -184,3 +184,44 @@ CHECKS["C16"] = {
     "assumptions": ["checks run as root; a non-root run skips every case and fails closed on the non-trivial floor",
                     "econf_requirePermissions is not part of the statement and is not exercised"],
 }
+
+CHECKS["C11"] = {
+    "engine": "E2",
+    "technique": "explicit-state breadth-first search over setter histories (state = history replayed on a fresh object, de-duplicated on a canonical form), every state checked against a reference ordered map",
+    "level_text": "all histories of econf_setStringValue over 5 section spellings x 3 keys x 2 values up to depth d from 8 start states (three constructors, "
+                  "three parsed files incl. duplicate key / empty section / re-opened section, two chains crossing the 8 pre-allocated entries) are explored "
+                  "breadth-first with de-duplication on the canonical object form; in every state all gets, defaulted gets and listings are compared with a "
+                  "reference ordered map, refused calls must have no effect, typed setters are applied one step ahead, and the state must be reproducible",
+    "level_note": "bounded: depth 4 (quick) / 5, and 6 from the empty constructors (thorough); trusted: reference map in harness/e2common.h; canonical form read from the private struct "
+                  "(keeps the spare capacity); a merge of two histories with different reference states is reported (canon-conflict)",
+    "rule": "state = canonical form (entries in order with group/key/value/comments/quote flag, group list, spare capacity, tags); transition = one "
+            "econf_setStringValue call; non-trivial = state at depth >= 2; distinct = distinct canonical forms",
+    "deadline": {"quick": 100, "thorough": 1200},
+    "parts": [
+        {"name": "bfs", "harness": "c11", "variant": "asan", "shards": 1, "quick": ["--p0", 4], "thorough": ["--p0", 5],
+         "deadline_share": 0.6, "floor": {"quick": 10000, "thorough": 100000}},
+        {"name": "bfs-deep", "harness": "c11", "variant": "asan", "shards": 1, "tiers": ["thorough"], "thorough": ["--p0", 6, "--p1", 6, "--p2", 5, "--p3", 10000000],
+         "deadline_share": 0.4, "floor": {"thorough": 100000}},
+    ],
+    "assumptions": ["values are two short tags; keys/sections from a universe of 3 x 3 (+ chain keys)"],
+}
+
+CHECKS["C10"] = {
+    "engine": "E2",
+    "technique": "explicit-state breadth-first search over setter histories with a read-only-call battery as invariant in every state (observation = private canonical form + written bytes), plus exhaustive enumeration of parsed conventional files",
+    "level_text": "in every state reachable by <= d setter calls over values with mixed-case boolean words, non-boolean text, hex/blank-prefixed numbers and "
+                  "empty text (and in every parsed conventional file of the bounded generator) all 163 read-only calls (listings, 8 typed + 8 defaulted getters "
+                  "and the extended getter on present and missing keys with plain and bracketed section names, path/tag queries, writeFile, merge in both roles, "
+                  "errString) are executed; the object's canonical form and the bytes a write produces must be identical before and after; for shallow states "
+                  "every ordered pair of calls is checked for order-independence of the answers",
+    "level_note": "bounded: depth 4, pairs on depth <= 1, files N<=2 D<=1 (quick); depth 5, pairs on depth <= 2, files N<=3 D<=1 (thorough); trusted: canonical form read from the private struct",
+    "rule": "state = canonical object form; invariant = observation unchanged by the battery; non-trivial = state with at least one setter call / file with an entry; distinct by canonical form / by construction",
+    "deadline": {"quick": 110, "thorough": 1200},
+    "parts": [
+        {"name": "bfs-readonly", "harness": "c10", "variant": "asan", "shards": 1, "quick": ["--p0", 0, "--p1", 4, "--p2", 1], "thorough": ["--p0", 0, "--p1", 5, "--p2", 2],
+         "deadline_share": 0.5, "floor": {"quick": 1000, "thorough": 10000}},
+        {"name": "files-readonly", "harness": "c10", "variant": "asan", "quick": ["--p0", 1, "--p1", 2, "--p2", 1], "thorough": ["--p0", 1, "--p1", 3, "--p2", 1],
+         "deadline_share": 0.5, "floor": {"quick": 10000, "thorough": 100000}},
+    ],
+    "assumptions": ["sequences longer than two read-only calls are covered by the whole battery run in one fixed order, not by all permutations"],
+}
